@@ -324,3 +324,94 @@ def known_kindtest_instance_of(nil: int) -> bool:
         b.set('{%s}nil' % XSI, 'false')
     doc = _ETK.ElementTree(a)
     return KT['attribute()'].evaluate(XPathContext(doc)) is False and KT['element(*, xs:untyped?)'].evaluate(XPathContext(doc)) is True
+
+
+# --- added after round-3 seeded changes: function tests on named references below the maximum arity; return types of the duration
+#     component functions on negative durations -----------------------------------------------------------------------------------------
+
+FT_CASES = (('substring#2', 'function(xs:string?, xs:double) as xs:string', True), ('substring#2', 'function(xs:string?, xs:double, xs:double) as xs:string', False),
+            ('substring#3', 'function(xs:string?, xs:double, xs:double) as xs:string', True), ('substring#3', 'function(xs:string?, xs:double) as xs:string', False),
+            ('round#1', 'function(xs:numeric?) as xs:numeric?', True), ('round#2', 'function(xs:numeric?, xs:integer) as xs:numeric?', True),
+            ('round#1', 'function(xs:numeric?, xs:integer) as xs:numeric?', False), ('name#0', 'function() as xs:string', True),
+            ('name#1', 'function(node()?) as xs:string', True), ('name#0', 'function(node()?) as xs:string', False),
+            ('string-join#1', 'function(xs:anyAtomicType*) as xs:string', True), ('string-join#2', 'function(xs:anyAtomicType*, xs:string) as xs:string', True),
+            ('string-join#1', 'function(xs:anyAtomicType*, xs:string) as xs:string', False), ('substring#2', 'function(*)', True),
+            ('substring(?, 2)', 'function(xs:string?) as xs:string', True), ('substring(?, 2)', 'function(xs:string?, xs:double) as xs:string', False))
+TOK_FT = [P31.parse('(%s) instance of %s' % (r, t)) for r, t, _ in FT_CASES]
+TOK_FT2 = [P31.parse('let $f := %s return ($f instance of %s, $f treat as function(*)) ' % (r, t)) for r, t, _ in FT_CASES]
+
+
+@ob(budget=120, bound='16 (function reference, function test) cases with references of built-ins BELOW and AT their maximum arity (index chosen by '
+                      'the solver): the test compares the first arity parameter types and the return type; arity mismatch never matches',
+    funcs=['elementpath/xpath_tokens/functions.py:XPathFunction.match_function_test', ST + ':match_sequence_type'])
+def function_test_on_optional_arity(i: int) -> bool:
+    """
+    pre: 0 <= i <= 15
+    post: _
+    """
+    i = [k for k in range(16) if k == i][0]
+    want = FT_CASES[i][2]
+    r = TOK_FT2[i].evaluate(XPathContext(item=1))
+    return TOK_FT[i].evaluate(XPathContext(item=1)) is want and r[0] is want and len(r) == 2
+
+
+DUR_FUNCS = ('years-from-duration', 'months-from-duration', 'days-from-duration', 'hours-from-duration', 'minutes-from-duration', 'seconds-from-duration')
+DUR_LEX = ('-P3DT10H', 'P3DT10H', '-PT10.5S', '-P1Y2M3DT10H5M', 'P1Y2M3DT10H5M6.5S', '-P14M', 'PT0S', '-PT36H')
+TOK_DUR = {f: P31.parse('let $r := %s(xs:duration($d)) return ($r instance of %s, $r treat as %s, %s#1(xs:duration($d)))'
+                        % (f, 'xs:decimal' if f.startswith('seconds') else 'xs:integer', 'xs:decimal' if f.startswith('seconds') else 'xs:integer', f))
+           for f in DUR_FUNCS}
+_DUR_WANT = {'-P3DT10H': (0, 0, -3, -10, 0, 0), 'P3DT10H': (0, 0, 3, 10, 0, 0), '-PT10.5S': (0, 0, 0, 0, 0, -10.5), '-P1Y2M3DT10H5M': (-1, -2, -3, -10, -5, 0),
+             'P1Y2M3DT10H5M6.5S': (1, 2, 3, 10, 5, 6.5), '-P14M': (-1, -2, 0, 0, 0, 0), 'PT0S': (0, 0, 0, 0, 0, 0), '-PT36H': (0, 0, -1, -12, 0, 0)}
+
+
+@ob(budget=200, bound='6 duration component functions x 8 durations (positive, negative, zero; indices chosen by the solver): the result is an '
+                      'instance of the declared return type (xs:integer; xs:decimal for seconds), also through treat as and a dynamic call, '
+                      'and has the component value',
+    funcs=['elementpath/xpath2/_xpath2_functions.py:*-from-duration', ST + ':match_sequence_type'])
+def duration_components_return_types(fi: int, di: int) -> bool:
+    """
+    pre: 0 <= fi <= 5 and 0 <= di <= 7
+    post: _
+    """
+    fi = [k for k in range(6) if k == fi][0]
+    d = DUR_LEX[[k for k in range(8) if k == di][0]]
+    f = DUR_FUNCS[fi]
+    r = TOK_DUR[f].evaluate(XPathContext(item=1, variables={'d': d}))
+    want = _DUR_WANT[d][fi]
+    rt = _return_type(f)
+    return r[0] is True and r[1] == want and r[2] == want and (type(r[1]) is int) == (fi != 5) and match_sequence_type(r[1], rt, P31)
+
+
+TOK_TREAT = parse_all({'fn': '($v treat as function(*), count($v treat as item()+))', 'map': 'map:size($v treat as map(*))', 'arr': 'array:size($v treat as array(*))',
+                       'mapk': '($v treat as map(xs:integer, xs:integer))($k)', 'bad_arr': '$v treat as array(*)', 'bad_map': '$v treat as map(xs:string, item()*)',
+                       'call': '($f treat as function(xs:integer) as xs:integer)($k)'})
+
+
+@ob(budget=120, bound='k, k2 unbounded integers: treat as with map(), array() and function() tests returns the operand unchanged when it matches '
+                      '(maps, arrays, inline functions, named references) and raises XPDY0050 otherwise',
+    funcs=['elementpath/xpath2/_xpath2_operators.py:evaluate__treat_expression', ST + ':match_sequence_type'])
+def treat_as_structured_types(k: int, k2: int) -> bool:
+    """
+    pre: 0 <= k <= 2
+    post: _
+    """
+    m = VALUES['m_int_int'].evaluate(XPathContext(item=1, variables=dict(k=k, k2=k2, s='a')))
+    a = VALUES['a_int'].evaluate(XPathContext(item=1, variables=dict(k=k, k2=k2, s='a')))
+    f = P31.parse('function($x as xs:integer) as xs:integer { $x + $y }').evaluate(XPathContext(item=1, variables=dict(y=k2)))
+    run = lambda key, **v: TOK_TREAT[key].evaluate(XPathContext(item=7, variables=v))   # noqa: E731
+    r = run('fn', v=f)
+    if not (isinstance(r, list) and len(r) == 2 and r[0] is f and r[1] == 1):
+        return False
+    if run('map', v=m) != 1 or run('arr', v=a) != 2 or run('mapk', v=m, k=k) != [k2] and run('mapk', v=m, k=k) != k2:
+        return False
+    c = run('call', f=f, k=k)
+    if c != [k + k2] and c != k + k2:
+        return False
+    for key, v in (('bad_arr', m), ('bad_map', m), ('map', a)):
+        try:
+            run(key, v=v)
+            return False
+        except ElementPathError as e:
+            if err_code(e) != 'XPDY0050':
+                return False
+    return True
